@@ -382,6 +382,10 @@ def compare_repr(case, ep, variant, tag, res1, res2, o, amp, precision, gap_ok, 
             # inside numpy may differ (strided vs contiguous reductions); iterative fits amplify that to <= ~1e-9
             # (measured), so fitted outputs get 1e-6 instead of the translation tolerances of C03
             rt, at = 1e-6, 1e-6 * max(1.0, amp if k.aamp is not None else 1.0)
+            if name.endswith('_err'):
+                # parameter uncertainties come from the covariance of a finite-difference Jacobian at the solution:
+                # measured sensitivity to a 1-ulp change of the weights (sqrt(err**2) vs err) up to 1.3e-5 relative
+                rt = 1e-3
         else:
             rt, at = rtol, atol
         if kind in epm.POS_KINDS and not precision and k.atol is None:
